@@ -197,7 +197,7 @@ pub fn run(ctx: &mut Ctx) {
         "power: conducted power <= MAX_RADIO_POWER, <= regional MaxEIRP - antenna gain, <= EIRP of the last acknowledged TXPower index".into(),
     ];
     let seed = ctx.seed;
-    let cases = ctx.tier.pick(1_500u32, 100_000);
+    let cases = ctx.tier.pick(15_000u32, 400_000);
     let nthreads = ctx.threads as u32;
     ctx.parallel(|ti, _n, st| {
         let f = run_proptest(history_strategy(), cases / nthreads + 1, seed ^ 0xC09 ^ ((ti as u64) << 36), st, |h, st| run_one(h, st, "history"));
